@@ -105,7 +105,7 @@ def hyp_lists(ctx, n):
             if res:
                 ctx.fail(res[0], {'kind': 'list', 'config': config if gen else None, 'codec': codec, 'msgs': msgs, 'blocked': blocked, 'api': api}, res[1])
     harness.drive(ctx, list_cases(ctx.tier), body, n, salt='lists')
-    ctx.floor('records>=50', 0.15, 'list')
+    ctx.floor('records>=50', 0.08, 'list')
 
 
 def sized_message(codec, size, variant):
